@@ -35,5 +35,6 @@ DecOK == (Trace[l].k = "dec" /\ Settled) =>
   /\ e.ok <=> (status = "done")
   /\ status = "done" => e.rn = Len(fed) /\ e.rv = val /\ e.left = Len(e.input) - Len(fed)
   /\ e.rn <= MaxLen /\ e.consumed <= MaxLen          \* bounded consumption, also on the error paths
+  /\ e.rn = e.consumed                               \* the count reported (with or without an error) is what was taken
   /\ e.panicked = FALSE
 =============================================================================
